@@ -1203,6 +1203,8 @@ fn builtin_pcap_open(args: Vec<Rc<Object>>) -> Result<Rc<Object>, String> {
         "r"
     };
     let res = match obj.as_ref() {
+        // open() failed: hand its error object to the caller unchanged
+        Object::Err(_) => return Ok(obj.clone()),
         Object::File(f) => match mode {
             "r" => Ok(Pcap::from_file(f.clone())),
             "a" => Err(String::from("append mode not supported for pcap files")),
